@@ -141,7 +141,8 @@ def fwStep (caseE pyout : Sexp) : String :=
 
 /-- tags of constructs whose save is known to refuse loudly (validated by the `cls` family) -/
 def loudTags : List String :=
-  ["Roi", "PointROI", "MultiLink", "OffsetLink", "AffineLink", "DaskComponent", "tag:meta-mixed-keys", "tag:unknown-subclass"]
+  ["Roi", "PointROI", "MultiLink", "OffsetLink", "AffineLink", "DaskComponent", "tag:meta-mixed-keys", "tag:unknown-subclass",
+   "tag:catroi-undefined"]
 
 /-- label of the first top-level / second-level section in which two snapshots differ -/
 def firstDiff : Sexp → Sexp → String
@@ -198,6 +199,7 @@ def nameId (n : String) : Option Nat := Gen.names.findIdx? (· == n)
 
 /-- classes of the table the harness knowingly does not construct (no recipe) -/
 def noRecipeAllowed : List String := [
+  "glue.core.subset.Subset",     -- ungrouped subsets are coerced into groups by the collection loader (legacy)
   "glue.core.subset.CompositeSubsetState",
   "glue.core.component.DaskComponent",
   "glue.core.component.ExtendedComponent",
